@@ -163,7 +163,7 @@ def state_eq(A, B, tol=1e-9):
         return False
     if set(A[1]) != set(B[1]):
         return False
-    return all(abs(A[1][k] - B[1][k]) <= tol for k in A[1])
+    return all(A[1][k] == B[1][k] or abs(A[1][k] - B[1][k]) <= tol for k in A[1])
 
 
 def state_diff(A, B):
@@ -178,9 +178,14 @@ def state_diff(A, B):
             out.append(f"fluent {k} missing")
         elif k not in B[1]:
             out.append(f"fluent {k} is extra (value {A[1][k]})")
-        elif abs(A[1][k] - B[1][k]) > 1e-9:
+        elif A[1][k] != B[1][k] and not abs(A[1][k] - B[1][k]) <= 1e-9:
             out.append(f"fluent {k} = {A[1][k]}, reference says {B[1][k]}")
     return "; ".join(out[:6])
+
+
+def too_large(S, bound=1e12):
+    """values beyond this are outside the generated numeric range (repeated squaring); callers stop extending plans"""
+    return any(not (abs(v) <= bound) for v in S[1].values())
 
 
 def init_state(P):
